@@ -20,6 +20,11 @@ CLAIMED = {
     text='Seeded search over histories of BeartypeConf constructions (valid, invalid, equal-but-differently-typed, unhashable values; BEARTYPE_IS_COLOR faults; two threads under the scheduler in 20% of runs) checked step by step against a small executable reference model of validation and memoisation. Evidence, not proof.',
     note='Trusted: the reference validate()/key model (my reading of the documented option rules), in-place state restore between runs (violations re-confirmed in a pristine fork).',
     design='5/C17'),
+ 'C14': dict(
+    technique='deterministic simulation: seeded API-operation histories (same-named classes, deletion + explicit GC, cache clears, failing operations, define-later) with a fresh-state oracle per query under a fixed sampler draw',
+    text='Seeded search over histories of public-API operations preceding each query; every query is answered a second time after beartype\'s state has been put back to pristine and only the operations constructing its arguments replayed (same draw); answers must be equal, and a query asked twice in a row must answer identically. Violations that depend on allocation history (id() reuse) are re-confirmed by re-executing the whole batch in an identical fresh worker. Evidence, not proof.',
+    note='Trusted: in-place state restoration as the "fresh interpreter" (violations re-confirmed in a really pristine fork, or by exact batch re-execution), dependency tracking of query arguments, explicit-GC-only discipline.',
+    design='5/C14'),
  'C15': dict(
     technique='deterministic simulation: baton-passing thread scheduler over real threads (sys.settrace line pre-emption, simulated locks), seeded schedule search, sequential-order oracle',
     text='Seeded search over line-level interleavings of 2-4 threads issuing public-API operations; outcomes must equal those of some sequential order, singletons must be shared, no deadlock/livelock, process-global hooks restored at quiescence. Evidence, not proof: a sample of schedules.',
@@ -37,7 +42,7 @@ NOT_APPLICABLE = {
 }
 
 PENDING = {k: 'not claimed yet: the simulation engine for this property (DESIGN.md section 5) is not built at this commit' for k in
-           ['C01','C02','C03','C07','C09','C10','C11','C14','C16','C18']}
+           ['C01','C02','C03','C07','C09','C10','C11','C16','C18']}
 
 def main():
     checks = []
